@@ -26,6 +26,7 @@ EXPLANATION = (
     "of the 'pos' column.")
 EXPLANATION += (" Premise: C10's rule that the ids reported by the neighbourhood queries use the cell table's strides. The id polynomial is compared per extent case that the path condition admits.")
 EXPLANATION += (' The deprecated spellings of DiscreteWorld forward every argument unchanged.')
+EXPLANATION += (' No world method stores an attribute under a computed name. Premise on C10 widened to its loop-bound rules.')
 ASSUMPTIONS = ["pandas positional indexing (iloc / default RangeIndex) semantics", "mixed-radix numbering is a bijection",
                "extents are 0 or >= 1 (quantifier)"]
 
@@ -179,6 +180,21 @@ def run(cx: Cx):
             cx.violation('R-DISC', st_.owner_q, 'cell-table-rebuilt-outside-the-constructor',
                          f"{st_.describe()}: the cell table is replaced after construction: row labels / row order are no longer "
                          f"the ids the position table was built with", where=st_.where)
+    # ... nor through a computed attribute name: `setattr(self, name, ...)` with a caller-chosen name overwrites `height` / `cells`
+    # when a cell component happens to be called that
+    dyn = None
+    for st_ in cx.effects.all_sites():
+        if st_.kind == 'setattr' and st_.fn.cls is not None and cx.prog.cls(ENV + 'SpaceWorld') in cx.prog.mro(st_.fn.cls) \
+                and not isinstance(st_.ev.data.get('key'), Const):
+            selfn = Sym(st_.fn.params[0]) if st_.fn.params else None
+            tg = st_.ev.data.get('target')
+            if isinstance(tg, App) and tg.args and strip_versions(tg.args[0]) == selfn:
+                dyn = dyn or st_
+    if dyn is not None:
+        cx.violation('R-DISC', dyn.fn.qualname, 'extent-fixed-after-construction',
+                     f"{dyn.describe()}: an attribute of the world is stored under a computed name - a name such as 'height', 'depth', "
+                     f"'width' or 'cells' replaces the extent / table the ids, the range check and the neighbourhood clipping use",
+                     where=dyn.where)
     cx.ok('R-DISC', 'extents and the cell table object are written only by the constructors', where=cx.where(dinit), function=dinit.qualname)
 
     # ------------------------------------------------------------ clause 1: producer facts
@@ -331,7 +347,7 @@ def run(cx: Cx):
     check_deprecated_aliases_forward(cx, DW)
     from .common import include_premises
     include_premises(cx, ['C10'], 'ids reported by the neighbourhood queries are cell ids: same strides as the cell table',
-                     only=lambda o: 'id-strides' in o.key or 'id form' in o.message)
+                     only=lambda o: 'id-strides' in o.key or 'id form' in o.message or (o.rule == 'R-GUARD' and 'loop' in o.message))
     include_premises(cx, ['C11'], "the row looked up carries the cell's component values only if every cell component stores each cell's "
                      "own value under that cell's id")
     from .common import check_no_stateful_memo
